@@ -36,6 +36,11 @@ Engine E3 (small-scope enumeration on the real objects), per sketch:
   queries only at the end / after every insertion / on merged halves.
 * ``reservoir``: exactly min(k, n) items, a sub-multiset of the stream, for
   direct streams and for every merged split.
+* ``ops`` / ``topk-epochs`` (props/c20_ops.py): sketches driven from NON-INITIAL
+  states - 3 objects, all sequences of add / merge (every direction) / clear up
+  to depth 4 (quick) / 5 (thorough), every object compared with the fresh
+  sketch of the stream it has absorbed since its last clear(); TopK: all
+  (stream, clear(), stream) pairs, oracle on the second epoch.
 * ``merkle``: ALL ordered pairs of maps over 2-6 keys x {absent, v1, v2}, trees
   built three ways (build / update / overwrite+remove churn); plus construction
   HISTORIES over 3 (quick) / 4 (thorough) keys: bulk build from every insertion
@@ -62,6 +67,7 @@ from mc.evidence import Run
 from mc.harness import Event, Instant, Simulation, pmap, rotate, run_guarded
 
 from props import c20_lib as L
+from props import c20_ops as OPS
 from props.c20_lib import add, cands, make_family
 
 PID = "C20"
@@ -950,6 +956,10 @@ def main(tier, seed, only=None):
         if only and drv not in only:
             continue
         run_stream_driver(run, drv, P[drv], seed)
+    if not only or "ops" in only:
+        OPS.run_ops_driver(run, tier, seed, pmap, rotate)
+    if not only or "topk-epochs" in only:
+        OPS.run_topk_epochs(run, tier, seed, pmap, rotate)
     if not only or "merkle" in only:
         run_merkle(run, tier, seed)
     if not only or "wrappers" in only:
@@ -961,6 +971,10 @@ def main(tier, seed, only=None):
 def replay(data):
     rep = data["replay"]
     drv = rep["driver"]
+    if drv == "ops":
+        return OPS.replay_ops(rep)
+    if drv == "topk-epochs":
+        return OPS.replay_topk_epochs(rep)
     if drv == "merkle":
         ma, mb = thaw(rep["a"]), thaw(rep["b"])
         keys = tuple(rep["keys"])
